@@ -58,7 +58,7 @@ def table_v(ctx: Ctx, chk) -> None:
         chk.refute(rule, "DEFAULT_PROTOCOL_VERSION", f"the default protocol version is {dv!r}; a gateway that has not reported a version must run 1.4", "src/aiomysensors/model/const.py")
     # Gateway.__init__
     gw = ctx.cls(GW)
-    init = gw.find_method("__init__")
+    init = ctx.inl(gw.find_method("__init__"))  # a shared "apply protocol" helper is judged written out
     chk.instance(rule)
     cn = Canon(I, init)
     prot = [n for n in ctx.own_nodes(init) if isinstance(n, ast.Assign) and any(norm(t) == "self._protocol" for t in n.targets)]
@@ -244,6 +244,19 @@ def select1(ctx: Ctx, chk) -> None:
         chk.ok(rule2, key, "direction refuted by SELECT-1; totality not applicable", loc, sample=False)
 
 
+def _private_helper_of_owners(ctx: Ctx, f) -> bool:
+    """A private Gateway method called only by Gateway.__init__ / the protocol_version setter."""
+    if f.cls is None or f.cls.fq != GW or not f.name.startswith("_") or f.name.startswith("__"):
+        return False
+    callers = []
+    for g_ in ctx.prog.all_functions():
+        if g_ is f:
+            continue
+        if any(isinstance(x, ast.Attribute) and x.attr == f.name for x in ctx.own_nodes(g_)):
+            callers.append(g_)
+    return bool(callers) and all(g_.cls is f.cls and (g_.name == "__init__" or g_.is_setter()) for g_ in callers)
+
+
 def copies1(ctx: Ctx, chk) -> None:
     rule = "COPIES-1"
     chk.rule(rule, "the three copies of 'which protocol is active' (_protocol_version, _protocol, schema context) are written only by Gateway.__init__, the protocol_version setter and MessageSchema.set_protocol, and every write of _protocol is followed on all normal paths by set_protocol with the same value")
@@ -262,12 +275,12 @@ def copies1(ctx: Ctx, chk) -> None:
                         continue
                     n += 1
                     chk.instance(rule)
-                    owner_ok = (f.cls is not None and f.cls.fq == GW and (f.name == "__init__" or f.is_setter())) or (f.fq == "aiomysensors.model.message.MessageSchema.set_protocol")
+                    owner_ok = (f.cls is not None and f.cls.fq == GW and (f.name == "__init__" or f.is_setter())) or (f.fq == "aiomysensors.model.message.MessageSchema.set_protocol") or _private_helper_of_owners(ctx, f)
                     if owner_ok:
                         chk.ok(rule, fkey(f, node), f"{f.qualname} may write {w}", ctx.loc(f, node), sample=n <= 2)
                     else:
                         chk.refute(rule, fkey(f, node), f"{f.qualname} writes {w}: the copies of the active protocol can drift apart", ctx.loc(f, node))
-    chk.floor(rule, "writes of protocol state", n, 5)
+    chk.floor(rule, "writes of protocol state", n, 3)
     gw = ctx.cls(GW)
     for fl in gw.methods.values():
         for f in fl:
@@ -358,6 +371,30 @@ def gate1(ctx: Ctx, chk) -> None:
                 else:
                     chk.ok(rule, key, f"gateway.protocol.{enum_name}(In.message_type) in try/except ValueError -> UnsupportedMessageError dominates the lookup (default None)", ctx.loc(f, c))
     chk.floor(rule, "gates", len(done), 2)
+    # "types that exist are accepted": the enum lookup is the only thing that refuses a type - every
+    # `raise UnsupportedMessageError` in handler code sits in the `except ValueError` of that lookup
+    for f in tables.all_handler_defs(ctx, include_wrappers=True):
+        for r in [x for x in ctx.own_nodes(f) if isinstance(x, ast.Raise) and x.exc is not None and norm(x.exc.func if isinstance(x.exc, ast.Call) else x.exc) == "UnsupportedMessageError"]:
+            chk.instance(rule)
+            key = fkey(f, r) + "::only-from-the-gate"
+            cur = r
+            inside = None
+            while cur in ctx.prog.parents and cur is not f.node:
+                par = ctx.prog.parents[cur]
+                if isinstance(par, ast.ExceptHandler):
+                    inside = par
+                    break
+                cur = par
+            ok = False
+            if inside is not None:
+                tr = ctx.prog.parents.get(inside)
+                elts = inside.type.elts if isinstance(inside.type, ast.Tuple) else [inside.type] if inside.type is not None else []
+                gate_calls = [c_ for b in (tr.body if isinstance(tr, ast.Try) else []) for c_ in ast.walk(b) if isinstance(c_, ast.Call) and norm(c_.func) in ("gateway.protocol.Internal", "gateway.protocol.Stream")]
+                ok = any(norm(x) == "ValueError" for x in elts) and bool(gate_calls)
+            if ok:
+                chk.ok(rule, key, "raised only when the active protocol's enum has no such member", ctx.loc(f, r), sample=False)
+            else:
+                chk.refute(rule, key, f"{f.qualname} refuses a message as unsupported outside the enum lookup of the active protocol (`{norm(r)[:60]}`): a type that exists in the active protocol can be refused (e.g. a member whose value is 0 is falsy)", ctx.loc(f, r))
     # _handle_message returns message for None
     for V in ctx.versions[:1]:
         cls = I.vclass(V, "IncomingMessageHandler")
@@ -366,13 +403,31 @@ def gate1(ctx: Ctx, chk) -> None:
             raise AnalysisError("anchor vanished: _handle_message")
         chk.instance(rule)
         msg = message_param(hm)
+        # under "no handler" (the looked-up handler is None) every normal path returns the message itself
+        from ..prov import truth3
+
+        cn_h = Canon(I, hm)
+        g_h = CFG(hm.node)
+        hparams = [p_ for p_ in hm.positional_params if any(isinstance(x, ast.Call) and isinstance(x.func, ast.Name) and x.func.id == p_ for x in ctx.own_nodes(hm))]
         ok = False
-        for n in hm.node.body:
-            t = n.test if isinstance(n, ast.If) else None
-            hname = t.left.id if isinstance(t, ast.Compare) and isinstance(t.left, ast.Name) and len(t.ops) == 1 and isinstance(t.ops[0], ast.Is) and norm(t.comparators[0]) == "None" else t.operand.id if isinstance(t, ast.UnaryOp) and isinstance(t.op, ast.Not) and isinstance(t.operand, ast.Name) else None
-            looked_up = hname is not None and any(isinstance(x, ast.Call) and isinstance(x.func, ast.Name) and x.func.id == hname for x in ctx.own_nodes(hm))
-            if looked_up and n.body and isinstance(n.body[-1], ast.Return) and norm(n.body[-1].value) == msg:
-                ok = True
+        if len(hparams) == 1:
+            hname = hparams[0]
+            assume = {f"{hname} == None": True}
+            rets_msg = [x for x in g_h.nodes if isinstance(x.ast, ast.Return) and x.ast.value is not None and norm(x.ast.value) == msg]
+            calls_h = g_h.nodes_where(lambda x: x.ast is not None and any(isinstance(c_, ast.Call) and isinstance(c_.func, ast.Name) and c_.func.id == hname for p_ in x.parts() for c_ in ast.walk(p_)))
+
+            def tr(tn):
+                v = truth3(cn_h, tn.ast, assume)
+                if v is None and isinstance(tn.ast, ast.Name) and tn.ast.id == hname:
+                    return False
+                if v is None and isinstance(tn.ast, ast.UnaryOp) and isinstance(tn.ast.op, ast.Not) and isinstance(tn.ast.operand, ast.Name) and tn.ast.operand.id == hname:
+                    return True
+                return v
+
+            # no path (consistent with handler None) reaches the exit except through `return <message>`, and none calls the handler
+            p1 = g_h.reach_avoiding([g_h.entry], lambda x: x is g_h.exit, lambda x: x in rets_msg, labels_skip=("exc",), from_succ=False, truth=tr)
+            p2 = g_h.reach_avoiding([g_h.entry], lambda x: x in calls_h, lambda x: False, labels_skip=("exc",), from_succ=False, truth=tr)
+            ok = p1 is None and p2 is None and bool(rets_msg)
         if ok:
             chk.ok(rule, f"{hm.fq}::None", "no handler -> the message is returned unchanged", hm.where)
         else:
